@@ -782,6 +782,154 @@ def fold_env(tu, n, env):
     return None
 
 
+class CStop(Exception):
+    def __init__(self, env, node):
+        self.env, self.node = env, node
+
+
+class CInterp:
+    """Folds comparison/assignment code of a C function over ONE point of a finite
+    input domain: integer locals live in `env` (canonical text -> int), conditions are
+    folded with fold_env, calls are ignored unless a hook supplies their value.  Used to
+    tabulate small decision procedures exhaustively (e.g. a length classifier) whatever
+    control-flow shape they are written in.  Anything it cannot fold raises AnalysisError."""
+
+    def __init__(self, tu, hooks=None, stop=None, max_steps=20000):
+        self.tu, self.hooks, self.stop = tu, hooks or {}, stop
+        self.steps = 0
+        self.max_steps = max_steps
+
+    def val(self, e, env):
+        e = strip(e)
+        if kind(e) == "CallExpr":
+            name = ctext(kids(e)[0])
+            if name in self.hooks:
+                return self.hooks[name](e, env)
+            return None
+        if kind(e) == "BinaryOperator" and e.get("opcode") == "=":
+            v = self.val(kids(e)[1], env)
+            env[ctext(kids(e)[0])] = v
+            return v
+        return fold_env(self.tu, e, {k: v for k, v in env.items() if v is not None})
+
+    def run(self, st, env):
+        """returns ('ret', value) | ('break',) | ('continue',) | None"""
+        self.steps += 1
+        if self.steps > self.max_steps:
+            raise AnalysisError("C interpreter: step limit")
+        if self.stop is not None and self.stop(st):
+            raise CStop(env, st)
+        k = kind(st)
+        if k == "CompoundStmt":
+            for x in kids(st):
+                r = self.run(x, env)
+                if r is not None:
+                    return r
+            return None
+        if k == "DeclStmt":
+            for d in kids(st):
+                if kind(d) == "VarDecl":
+                    init = [c for c in kids(d)]
+                    env[d.get("name")] = self.val(init[-1], env) if init else None
+            return None
+        if k == "IfStmt":
+            inner = st["inner"]
+            has_else = st.get("hasElse", False)
+            cond = inner[-3] if has_else else inner[-2]
+            c = self.val(cond, env)
+            if c is None:
+                raise AnalysisError("C interpreter: condition does not fold: %s" % ctext(cond))
+            if c:
+                return self.run(inner[-2] if has_else else inner[-1], env)
+            if has_else:
+                return self.run(inner[-1], env)
+            return None
+        if k == "SwitchStmt":
+            inner = st["inner"]
+            v = self.val(inner[-2], env)
+            if v is None:
+                raise AnalysisError("C interpreter: switch value does not fold: %s" % ctext(inner[-2]))
+            body = inner[-1]
+            flat = []
+
+            def flatten(x):
+                if kind(x) in ("CaseStmt", "DefaultStmt"):
+                    flat.append(("label", x))
+                    flatten(x["inner"][-1])
+                else:
+                    flat.append(("stmt", x))
+            for x in kids(body):
+                flatten(x)
+            start = None
+            for i, (t, x) in enumerate(flat):
+                if t == "label" and kind(x) == "CaseStmt" and self.tu.fold(x["inner"][0]) == v:
+                    start = i
+                    break
+            if start is None:
+                for i, (t, x) in enumerate(flat):
+                    if t == "label" and kind(x) == "DefaultStmt":
+                        start = i
+                        break
+            if start is None:
+                return None
+            for t, x in flat[start:]:
+                if t == "stmt":
+                    r = self.run(x, env)
+                    if r == ("break",):
+                        return None
+                    if r is not None:
+                        return r
+            return None
+        if k == "ReturnStmt":
+            ks = kids(st)
+            return ("ret", self.val(ks[0], env) if ks else None)
+        if k == "BreakStmt":
+            return ("break",)
+        if k == "ContinueStmt":
+            return ("continue",)
+        if k == "DoStmt":
+            body, cond = st["inner"][0], st["inner"][1]
+            for _ in range(self.max_steps):
+                r = self.run(body, env)
+                if r == ("break",):
+                    return None
+                if r is not None and r != ("continue",):
+                    return r
+                c = self.val(cond, env)
+                if c is None:
+                    raise AnalysisError("C interpreter: loop condition does not fold")
+                if not c:
+                    return None
+            raise AnalysisError("C interpreter: loop limit")
+        if k in ("WhileStmt", "ForStmt"):
+            raise AnalysisError("C interpreter: loop reached before the stop point")
+        if k == "NullStmt":
+            return None
+        if k in ("BinaryOperator", "CompoundAssignOperator", "UnaryOperator"):
+            ks = kids(st)
+            op = st.get("opcode")
+            if k == "BinaryOperator" and op == "=":
+                env[ctext(ks[0])] = self.val(ks[1], env)
+            elif k == "CompoundAssignOperator":
+                cur = env.get(ctext(ks[0]))
+                rhs = self.val(ks[1], env)
+                if cur is None or rhs is None:
+                    env[ctext(ks[0])] = None
+                else:
+                    env[ctext(ks[0])] = {"+=": cur + rhs, "-=": cur - rhs, "*=": cur * rhs, "|=": cur | rhs,
+                                         "&=": cur & rhs, "<<=": cur << rhs, ">>=": cur >> rhs}.get(op)
+            elif k == "UnaryOperator" and op in ("++", "--"):
+                cur = env.get(ctext(ks[0]))
+                env[ctext(ks[0])] = None if cur is None else cur + (1 if op == "++" else -1)
+            return None
+        if k in ("CallExpr", "CStyleCastExpr", "ImplicitCastExpr", "ParenExpr"):
+            self.val(st, env)
+            return None
+        if k in ("LabelStmt", "GotoStmt"):
+            raise AnalysisError("C interpreter: goto/label")
+        return None
+
+
 def find_nodes(root, pred):
     return [n for n in walk(root) if pred(n)]
 
